@@ -121,6 +121,99 @@ int main(int argc, char **argv) {
         ref_report[o] = face_report(fr);
         LIBV(gr_face_destroy(fr));
     }
+    if (a.get("part") == "swap") {
+        // Order-swap monitor: two calls that differ in ONE argument (a feature value, the language, the direction, the size, the text)
+        // are made in both orders, each order on its own brand-new face; what a call returns must not depend on whether the other call
+        // came first.  The variations are enumerated (every feature x every setting value, every language, ...), not sampled, so state
+        // that the first call on a face freezes (or that the previous call leaves behind) is met whatever argument it is keyed on.
+        gr_face *fq = LIB(gr_make_file_face(fontpath.c_str(), 0));
+        struct Var { int kind; unsigned feat; uint16_t val; uint32_t lang; };
+        std::vector<Var> vars;
+        unsigned nf = gr_face_n_fref(fq), nl = gr_face_n_languages(fq);
+        for (unsigned i = 0; i < nf; ++i) {
+            const gr_feature_ref *fr = gr_face_fref(fq, uint16_t(i));
+            unsigned nv = gr_fref_n_values(fr);
+            for (unsigned j = 0; j < nv; ++j) vars.push_back({0, i, uint16_t(gr_fref_value(fr, uint16_t(j))), 0});
+            if (!nv) { vars.push_back({0, i, 1, 0}); vars.push_back({0, i, 0, 0}); }
+        }
+        for (unsigned i = 0; i < nl; ++i) vars.push_back({1, 0, 0, gr_face_lang_by_index(fq, uint16_t(i))});
+        for (int d = 1; d < 8; ++d) vars.push_back({2, 0, uint16_t(d), 0});
+        vars.push_back({3, 0, 0, 0});
+        vars.push_back({4, 0, 0, 0});
+        LIBV(gr_face_destroy(fq));
+        long total = std::min<long>(a.cases, (long(vars.size()) - a.shard + a.nshards - 1) / a.nshards);
+        for (long k = 0; k < total; ++k) {
+            if (!a.runs(k)) continue;
+            Rng r(a.case_seed(k));
+            // rotate the enumeration by the seed so that different seeds start at different variations when the budget is short
+            const Var &v = vars[size_t((k * a.nshards + a.shard + long(a.seed % 9973) * 7) % long(vars.size()))];
+            int o = int(r.below(2));
+            Probe base = probes[r.below(uint32_t(probes.size()))];
+            if (base.text.size() < 2 && !lines.empty()) base.text = r.pick(lines);
+            if (base.text.size() > 48) base.text.resize(48);
+            base.fmode = 0; base.sets.clear(); base.lang = 0;
+            Probe var = base;
+            std::string what;
+            switch (v.kind) {
+            case 0: var.fmode = 2; var.sets.push_back({v.feat, v.val}); what = fmt("feature #%u = %u", v.feat, v.val); break;
+            case 1: var.fmode = 1; var.lang = v.lang; what = fmt("language %08x", v.lang); break;
+            case 2: var.dir = base.dir ^ int(v.val); what = fmt("dir %d vs %d", var.dir, base.dir); break;
+            case 3: var.ppm = base.ppm > 0 ? 0.0f : 31.0f; what = "size"; break;
+            default: var.text = random_text(r, rep, 24, false); for (auto &c : var.text) if (c == 0 || !is_scalar(c)) c = 0x41; what = "another text"; break;
+            }
+            set_case(k, "swap font=%s options=%u variation=%s text=%s dir=%d ppm=%g", fontpath.c_str(), opts[o], what.c_str(), cps_str(base.text, 12).c_str(), base.dir, base.ppm);
+            cpu_budget_ms(60000);
+            gr_face *fa = LIB(gr_make_file_face(fontpath.c_str(), opts[o])), *fb = LIB(gr_make_file_face(fontpath.c_str(), opts[o]));
+            std::string a1 = run_probe(fa, var), a2 = run_probe(fa, base);       // variation first
+            std::string b1 = run_probe(fb, base), b2 = run_probe(fb, var);       // base first
+            st.add("swap_pairs");
+            st.count("swap_by_kind", v.kind == 0 ? "feature" : v.kind == 1 ? "language" : v.kind == 2 ? "dir" : v.kind == 3 ? "size" : "text");
+            if (a1 != b2) V("swap:differs", "the call with %s gives another segment as first call of a face than after the same call without it", what.c_str());
+            if (a2 != b1) V("swap:differs", "the base call gives another segment after the call with %s than as first call of a face", what.c_str());
+            if (a1 != a2) st.add("swap_pairs_where_the_variation_matters");
+            if (a2 != "NULL\n" && base.text.size() >= 2) st.add("nontrivial");
+            st.add("probes_compared", 2);
+            LIBV(gr_face_destroy(fa));
+            LIBV(gr_face_destroy(fb));
+            cpu_budget_ms(0);
+        }
+        // ---- the same for label queries: every (feature label / setting label, language) query X with its successor Y in the enumeration and
+        // with a random Y, in both orders on fresh faces (a name-table cursor or cache moved by one query shows in the other)
+        {
+            gr_face *fl = LIB(gr_make_file_face(fontpath.c_str(), 0));
+            std::vector<LabelProbe> qs;
+            unsigned nfl = gr_face_n_fref(fl);
+            for (unsigned i = 0; i < nfl && qs.size() < 96; ++i) {
+                const gr_feature_ref *fr = gr_face_fref(fl, uint16_t(i));
+                unsigned nv = gr_fref_n_values(fr);
+                for (int sidx = -1; sidx < int(nv) && sidx < 2; ++sidx) { LabelProbe q; q.feat = i; q.setting = sidx; q.lang = (i + unsigned(sidx + 1)) & 1 ? 0x409 : 0x40C; q.enc = int((i + unsigned(sidx + 1)) % 3); qs.push_back(q); }
+            }
+            LIBV(gr_face_destroy(fl));
+            long ltotal = qs.size() < 2 ? 0 : std::min<long>(a.cases, (long(qs.size()) - a.shard + a.nshards - 1) / a.nshards);
+            for (long k = 0; k < ltotal; ++k) {
+                if (!a.runs(k)) continue;
+                Rng r(a.case_seed(k) ^ 0x5bd1e995u);
+                size_t xi = size_t((k * a.nshards + a.shard + long(a.seed % 9973) * 5) % long(qs.size()));
+                size_t yi = r.chance(0.5) ? (xi + 1) % qs.size() : r.below(uint32_t(qs.size()));
+                if (yi == xi) yi = (xi + 1) % qs.size();
+                int o = int(r.below(2));
+                set_case(k, "label-swap font=%s options=%u X=(feature %u setting %d lang %x) Y=(feature %u setting %d lang %x)", fontpath.c_str(), opts[o], qs[xi].feat, qs[xi].setting, qs[xi].lang, qs[yi].feat, qs[yi].setting, qs[yi].lang);
+                gr_face *fa = LIB(gr_make_file_face(fontpath.c_str(), opts[o])), *fb = LIB(gr_make_file_face(fontpath.c_str(), opts[o]));
+                std::string ax = run_label(fa, qs[xi]), ay = run_label(fa, qs[yi]);
+                std::string by = run_label(fb, qs[yi]), bx = run_label(fb, qs[xi]);
+                st.add("label_swap_pairs");
+                if (ax != bx) V("swap:label-differs", "label query X answers [%s] as first query of a face and [%s] after query Y", ax.c_str(), bx.c_str());
+                if (ay != by) V("swap:label-differs", "label query Y answers [%s] after query X and [%s] as first query of a face", ay.c_str(), by.c_str());
+                if (ax != ay) st.add("label_swap_pairs_with_different_answers");
+                LIBV(gr_face_destroy(fa));
+                LIBV(gr_face_destroy(fb));
+            }
+        }
+        st.mx("max_swap_variations_of_a_font", double(vars.size()));
+        st.add("oracle_firings", double(g_viol));
+        st.print();
+        return 0;
+    }
     for (long k = 0; k < a.cases; ++k) {
         if (!a.runs(k)) continue;
         Rng r(a.case_seed(k));
@@ -138,6 +231,29 @@ int main(int argc, char **argv) {
             int op = int(r.below(10));
             if (op < 4) {           // shape something else, keep it alive
                 Probe q = draw_probe(r, live, rep, lines);
+                if (r.chance(0.4)) {
+                    // ... or a near miss of one of the probes: same text, but other feature values / language / direction / size.  State
+                    // that leaks between calls is usually keyed on exactly the arguments that differ here.
+                    q = probes[r.below(uint32_t(probes.size()))];
+                    unsigned nf = gr_face_n_fref(live), nl = gr_face_n_languages(live);
+                    switch (r.below(4)) {
+                    case 0:
+                        if (nf) {
+                            if (q.sets.empty() || r.chance(0.3)) { q.fmode = 2; q.lang = 0; q.sets.clear(); for (int n = r.range(1, 3); n > 0; --n) q.sets.push_back({r.below(nf), uint16_t(r.below(3))}); }
+                            else for (auto &st_ : q.sets) {
+                                const gr_feature_ref *fr = gr_face_fref(live, uint16_t(st_.first));
+                                unsigned nv = gr_fref_n_values(fr);
+                                uint16_t other = uint16_t(nv ? gr_fref_value(fr, uint16_t(r.below(nv))) : r.below(3));
+                                st_.second = other != st_.second ? other : uint16_t(st_.second ? 0 : 1);
+                            }
+                        }
+                        break;
+                    case 1: if (nl) { q.fmode = 1; q.sets.clear(); q.lang = gr_face_lang_by_index(live, uint16_t(r.below(nl))); } break;
+                    case 2: q.dir ^= 1 << r.below(3); break;
+                    default: q.ppm = q.ppm > 0 ? 0.0f : 23.0f; break;
+                    }
+                    st.add("op_shape_near_miss_of_probe");
+                }
                 const gr_font *fo = r.chance(0.5) ? lfont : (!fontpool.empty() && r.chance(0.5) ? fontpool[r.below(uint32_t(fontpool.size()))] : nullptr);
                 Text tx;
                 tx.set(kEnc[q.enc], q.text, false);
